@@ -2,6 +2,7 @@ import WV.Model.ClientEnv
 import WV.Model.ClientData
 import Std.Data.HashMap
 import WV.Proofs.Closable
+import WV.Model.PossibleExec
 
 /-! `wvsearch`: explicit-state search over the closed client×environment system.
     Prints the size of the reachable set and, if some enabled step is unsafe, a shortest event
@@ -66,6 +67,12 @@ def main (args : List String) : IO Unit := do
     IO.println s!"not-closable {bad.length}"
     for s in bad.take 5 do
       IO.println s!"  {WV.ClientData.showStates s.ctl} ws={s.ctl.wsOpen} stopPending={s.ctl.stopPending} svcStopped={s.env.svcStopped} singles={repr s.env.singles} welcomed={s.env.welcomed}"
+  if args.contains "kx" then
+    let L := seen.toList.map (·.1)
+    let st := WV.Possible.stuck WV.Possible.coopKx WV.Possible.kxDone WV.Possible.kxSrc 120 L
+    IO.println s!"kx-src {(L.filter WV.Possible.kxSrc).length} kx-stuck {st.length}"
+    for s in st.take 6 do
+      IO.println s!"  {WV.ClientData.showStates s.ctl} ws={s.ctl.wsOpen} half={s.ctl.halfOpen} pendPake={s.env.pendPake} pendVersion={s.env.pendVersion} srvPake={s.env.srvPake} srvVersion={s.env.srvVersion} peerKey={repr s.env.peerKey} pakeProcessed={s.ctl.pakeProcessed} versionProcessed={s.ctl.versionProcessed} q={repr s.ctl.orderQ} singles={repr s.env.singles} welcomed={s.env.welcomed} opened={s.env.opened}"
   match bad with
   | none => IO.println "unsafe none"
   | some (s, e) =>
